@@ -108,6 +108,10 @@ pub enum T0Pat {
     PartialExtremes(u8),
     /// every polynomial vanishes at one NTT point or on one aligned group of 16 (constructed, in range)
     NttSparse,
+    /// one to three monomials per polynomial with small special values (+-1, +-2, +-(beta-1), +-beta, +-(beta+1),
+    /// +-2beta for every beta in use): c*t0 then takes these exact values at tau positions per monomial, so
+    /// comparisons of c*t0 coefficients against small thresholds meet their boundaries constantly
+    SparseSmall,
 }
 
 pub fn s_poly(g: &mut Prng, eta: i64, pat: SPat) -> Poly {
@@ -129,6 +133,15 @@ pub fn t0_poly(g: &mut Prng, pat: T0Pat) -> Poly {
     if pat == T0Pat::NttSparse {
         return ntt_sparse_poly(g, -top + 1, top);
     }
+    if pat == T0Pat::SparseSmall {
+        let vals: [i64; 16] = [1, 2, 77, 78, 79, 80, 119, 120, 121, 156, 157, 195, 196, 197, 240, 392];
+        let mut f = r::ZERO;
+        for _ in 0..1 + g.below(3) {
+            let v = *g.pick(&vals);
+            f[g.below(256) as usize] = if g.below(2) == 0 { v } else { -v };
+        }
+        return f;
+    }
     core::array::from_fn(|_| match pat {
         T0Pat::AllTop => top,
         T0Pat::AllBottom => -top + 1,
@@ -142,7 +155,7 @@ pub fn t0_poly(g: &mut Prng, pat: T0Pat) -> Poly {
                 g.range(-top + 1, top)
             }
         }
-        T0Pat::NttSparse => unreachable!(),
+        T0Pat::NttSparse | T0Pat::SparseSmall => unreachable!(),
     })
 }
 
@@ -578,4 +591,59 @@ pub fn ntt_sparse_poly(g: &mut Prng, lo: i64, hi: i64) -> Poly {
             poly_zero_ntt_group(g, lo, hi, k, classes)
         }
     }
+}
+
+
+/// Polynomials with arithmetic structure in the coefficient domain, which turns into repetition in the
+/// NTT domain: f(X^(2^j)) (non-zero only at multiples of 2^j: its NTT consists of blocks of 2^j equal
+/// values), single monomials, and constant-coefficient polynomials. All coefficients within [lo, hi].
+pub fn structured_polys(g: &mut Prng, lo: i64, hi: i64) -> Vec<(String, Poly)> {
+    let mut out = Vec::new();
+    let nz = |g: &mut Prng| -> i64 {
+        loop {
+            let v = g.range(lo, hi);
+            if v != 0 {
+                return v;
+            }
+        }
+    };
+    for j in 1..=8u32 {
+        let stride = 1usize << j;
+        let mut f = r::ZERO;
+        let mut i = 0;
+        while i < 256 {
+            f[i] = nz(g);
+            i += stride;
+        }
+        out.push((format!("polynomial in X^{stride}"), f));
+    }
+    for e in [0usize, 1, 16, 255] {
+        let mut f = r::ZERO;
+        f[e] = nz(g);
+        out.push((format!("monomial X^{e}"), f));
+    }
+    for v in [hi, lo, 1i64.clamp(lo, hi)] {
+        if v != 0 {
+            out.push((format!("all coefficients {v}"), [v; 256]));
+        }
+    }
+    out
+}
+
+
+/// t0 vector for a given beta: every polynomial is one to three monomials whose values are +-1, +-(beta-1),
+/// +-beta, +-(beta+1), +-(beta+2), +-2beta, +-(2beta+1), +-(2beta+2) (see T0Pat::SparseSmall)
+pub fn t0_sparse_small(g: &mut Prng, p: &Params) -> Vec<Poly> {
+    let b = p.beta;
+    let vals = [1, b - 1, b, b + 1, b + 2, 2 * b, 2 * b + 1, 2 * b + 2];
+    (0..p.k)
+        .map(|_| {
+            let mut f = r::ZERO;
+            for _ in 0..1 + g.below(3) {
+                let v = *g.pick(&vals);
+                f[g.below(256) as usize] = if g.below(2) == 0 { v } else { -v };
+            }
+            f
+        })
+        .collect()
 }
